@@ -12,6 +12,21 @@ CLAIMED = {
   note="Trusted: the harness's own 20-line renderer (cross-checked against indent.String on every case); the sink honours the io.Writer contract; behaviour after a failed Write is not examined.",
   ref="DESIGN.md §4 C20",
   tech="deterministic simulation: simulated io.Writer with seeded short-write/error faults + seeded chunking, reference model with byte provenance"),
+ "C05": dict(
+  text="Seeded exploration of (generated module set, load-order permutation, map-order schedule = mode per iteration site + integer): every alternative execution, on a fresh Modules, must equal the canonical execution byte for byte (full canonical dump or error list; stdout/stderr/exit status of the instrumented goyang command; yangentry.Parse). The seam covers every range-over-map in the tree under test, so a newly introduced order dependence is reached without changing the check. Sampling, not proof.",
+  note="Trusted: the AST rewriter (its instrumentation gate re-runs goyang's own suite on the rewritten copy), the canonical key order of the oracle, the dump's completeness (documented field list in DESIGN.md 3.4). Module names pairwise distinct (several revisions of one name are C13).",
+  ref="DESIGN.md §4 C05",
+  tech="deterministic simulation: seeded map-iteration-order oracle at every rewritten range site + seeded load order; metamorphic comparison with the canonical schedule; culprit-site minimisation"),
+ "C18": dict(
+  text="Seeded exploration of operation histories (Parse good / Parse again / Parse damaged-or-rejected text / Process / queries) on one Modules: after every Process the outcome must equal a fresh Modules that loads exactly the accepted texts and processes once. Bad texts are derived by simulated storage damage (short, torn, flipped, garbage, duplicated block) and by spliced rejected statements placed after the module's typedefs. Sampling, not proof.",
+  note="Trusted: the canonical dump; 'accepted' = Parse returned nil; one module per text; loads are Parse calls (no disk). The batch run uses the same map-order schedule as the history.",
+  ref="DESIGN.md §4 C18",
+  tech="deterministic simulation: seeded operation histories with injected failed loads (storage-damaged texts), checked against a batch reference execution after every step"),
+ "C01": dict(
+  text="Seeded exploration of the history / fault part of crash-freedom: generated (incl. deliberately cyclic, dangling, colliding) module sets and the repository's testdata on a simulated disk with storage faults (lost, unreadable, vanished, short, torn, bit-flipped, garbage, duplicated block, stale content, unreadable directory), histories of Parse/Read/GetModule/Process/queries incl. incomplete sets and re-Process, under seeded map order, with simulated time (tick budget) and call-depth bounds standing in for hang and stack overflow. Crash-freedom over all byte strings is NOT claimed (pure-function fuzzing claim).",
+  note="Trusted: tick/depth budgets have >= 50x headroom over measured need; a process-killing fault (fatal error) is attributed by the RUN protocol and confirmed in a fresh process. Queries are issued only after a clean Process (API contract).",
+  ref="DESIGN.md §4 C01",
+  tech="deterministic simulation: simulated disk with seeded fault plan + seeded operation histories + tick/depth budget as simulated time; oracle = every call returns"),
 }
 
 NA_PURE = {
